@@ -96,6 +96,10 @@ mut("c18_q_lanczos_unary_state", "C18", "LanczosUnary remembers the first block 
       "        Q, T, info = lanczos(self.A, V, **self.kwargs)  # outputs are batched\n",
       "        V = self.kwargs.setdefault('_first', V) if self.kwargs.get('_first', V).shape == V.shape else V\n"
       "        Q, T, info = lanczos(self.A, V, **{k: v for k, v in self.kwargs.items() if k != '_first'})  # outputs are batched\n")])
+mut("c17_v_kron_product_of_estimates", "C17", "revert of the Kronecker fix: diag/trace of a Kronecker product multiplies the "
+    "factors' Hutchinson estimates, all drawn with the same key (biased)",
+    [("cola/linalg/trace/diag_trace.py", "def diag(A: Kronecker, k: int, alg: Exact):\n", "def diag(A: Kronecker, k: int, alg: Algorithm):\n"),
+     ("cola/linalg/trace/diag_trace.py", "def trace(A: Kronecker, alg: Exact):\n", "def trace(A: Kronecker, alg: Algorithm):\n")])
 mut("c18_r_registry_first_instance", "C18", "revert of the registry fix: first instance decides for the whole class",
     [("cola/ops/operator_base.py",
       "        if name not in dynamic or undecided:\n", "        if name not in dynamic:\n")])
